@@ -734,20 +734,20 @@ Print Assumptions c02_code_analyze_request.
     cursor is its position, the closure a function of the position; std's Cursor::write_all is the stated assumption
     [cursor_write_all]): proofs/Gen2_equiv_trywrite.v. *)
 From Hoot.proofs Require Import Gen2_equiv_trywrite.
-Theorem c02_code_try_write_restores : forall position block,
-  gen_writer_try_write position block =
+Theorem c02_code_try_write_restores : forall position capacity block,
+  gen_writer_try_write position capacity block =
   Ok (if snd (block position) then fst (block position) else position, snd (block position)).
 Proof. exact gen_writer_try_write_spec. Qed.
 Print Assumptions c02_code_try_write_restores.
 Theorem c02_code_try_write_all_or_nothing : forall cap n position,
   position <= cap ->
-  gen_writer_try_write position (cursor_write_all cap n) =
+  gen_writer_try_write position cap (cursor_write_all cap n) =
   Ok (if n <=? cap - position then position + n else position, n <=? cap - position).
 Proof. exact gen_writer_try_write_all_or_nothing. Qed.
 Print Assumptions c02_code_try_write_all_or_nothing.
 Theorem c02_code_try_write_two : forall cap n m position,
   position <= cap ->
-  gen_writer_try_write position (cursor_write_two cap n m) =
+  gen_writer_try_write position cap (cursor_write_two cap n m) =
   Ok (if n + m <=? cap - position then position + (n + m) else position, n + m <=? cap - position).
 Proof. exact gen_writer_try_write_two. Qed.
 Print Assumptions c02_code_try_write_two.
